@@ -375,8 +375,13 @@ def go_overlay_test(ctx, repo_pkg, overlay_files, run_re, *, tags="verif", race=
     ov = os.path.join(ctx.sub("ov"), "overlay-%s.json" % hashlib.sha1(repr(sorted(repl)).encode()).hexdigest()[:8])
     with open(ov, "w") as f:
         json.dump({"Replace": repl}, f)
-    cmd = [gobin(toolchain), "test", "-vet=off", "-overlay", ov, "-count", str(count), "-run", run_re,
-           "-timeout", "%ds" % timeout]
+    # never let `-mod=mod` rewrite the repository's go.mod (overlay files may import indirect dependencies):
+    # work on a scratch copy of go.mod/go.sum
+    mf = ctx.sub("modfile-%s" % hashlib.sha1(pkgdir.encode()).hexdigest()[:8])
+    shutil.copy(os.path.join(REPO, "go.mod"), os.path.join(mf, "go.mod"))
+    shutil.copy(os.path.join(REPO, "go.sum"), os.path.join(mf, "go.sum"))
+    cmd = [gobin(toolchain), "test", "-modfile", os.path.join(mf, "go.mod"), "-vet=off", "-overlay", ov,
+           "-count", str(count), "-run", run_re, "-timeout", "%ds" % timeout]
     if verbose:
         cmd.append("-v")
     if tags:
